@@ -196,6 +196,20 @@ def generate_ledger_props(tree):
         raise Unsupported('stop_time body')
     ex2 = QEx({'start_time': 't', 'time_length': 'gen_time_length l'})
     out.append(f'Definition gen_stop_time (l : ledger) : option Q := match t0 l with None => None | Some t => Some {ex2.q(b[1].value)}%Q end.')
+    # contains: no start time -> nothing inside; else the half-open test, with the two isclose terms that only decide WITHIN Time's
+    # resolution of an edge (close to the stop: outside; close to the start: not excluded by that).  Pinned as a syntax tree.
+    fn = find_prop(tree, 'Signal', 'contains')
+    want = '''def contains(self, t, /):
+    if self.start_time is None:
+        return np.zeros(t.shape, bool) if t.shape else False
+    t0, t1 = self.start_time, self.stop_time
+    edge = ~np.bool_(Time.isclose(t, t1)) | np.bool_(Time.isclose(t, t0))
+    return edge & (t0 <= t) & (t < t1)
+'''
+    f2 = ast.parse(ast.unparse(fn)).body[0]
+    f2.body = strip_doc(f2)
+    ok = ast.dump(f2) == ast.dump(ast.parse(want).body[0])
+    out.append(f'Definition gen_contains_is_half_open : bool := {"true" if ok else "false"}.')
     return out
 
 
